@@ -45,11 +45,11 @@ def main(tier, args):
     else:
         b1, b2, b3, dl = 3, 2, 1, 1200
         jobs = (cmds(plain, CFG1, 3, "plain", o) + cmds(plain, CFG2, 2, "plain", o) + cmds(plain, CFG3, 1, "plain", o)
-                + cmds(plain, CFG1N + CFG1S[:2], 2, "plain", o) + cmds(plain, CFG1S[2:] + CFG2N + CFG2S, 1, "plain", o)
+                + cmds(plain, CFG1N + CFG1S[:1], 2, "plain", o) + cmds(plain, CFG1S[1:] + CFG2N + CFG2S, 1, "plain", o)
                 + cmds(plain, SPUR1, 2, "plain-spur", o, SP) + cmds(plain, SPUR2, 1, "plain-spur", o, SP)
                 + cmds(asan, CFG1, 2, "asan", o) + cmds(asan, CFG2 + CFG1N, 1, "asan", o) + cmds(asan, CFG1S + CFG2N + CFG2S + CFG3, 0, "asan", o)
                 + cmds(tsan, CFG1, 2, "tsan", o) + cmds(tsan, CFG2 + CFG1N, 1, "tsan", o) + cmds(tsan, CFG1S + CFG2N + CFG2S + CFG3, 0, "tsan", o))
-        newb = "<= 2 (1 producer; 2 of the 4 re-configured two-session ones: 1)"
+        newb = "<= 2 (1 producer; 3 of the 4 re-configured two-session ones: 1)"
         nsp, spb, ba, bt = len(SPUR1 + SPUR2), "2 (1 producer) / 1 (2 producers)", 2, 2
     env = {"VERIF_DEADLINE_S": str(dl), "VERIF_WORKERS": "3", "TSAN_OPTIONS": "report_signal_unsafe=0:exitcode=0"}
     vf.run_procs(res, jobs, env=env, log=log, jobs=6)
